@@ -266,6 +266,36 @@ theorem generated_concurrent (d : CacheDoc.Desc) (h : CacheDoc.okRanks d = true)
   intro i t cs ht hcs hfin
   exact results_sequential_run wf hN hg _ hcalls hr i t _ ht (by simp [hcs]) hfin _ (Nat.le_refl _)
 
+/-! ## Non-vacuity
+
+The document `Cache.demo` of Props/C12 satisfies `WF` (`Cache.demo_wf`: nested loads, a type mismatch, an
+error that is swallowed, an error path that resolves again); two threads load its objects through the
+object cache and finish with the sequential answers, whichever of two very different schedules is used. -/
+
+example : ∀ cs ∈ [[getCall (V := Nat) (E := Nat) 1 3, getCall 0 1], [getCall 0 2, getCall 1 3]], ∀ p ∈ cs, FineCall demoFilt p := by
+  intro cs hcs p hp
+  simp only [List.mem_cons, List.mem_nil_iff, or_false] at hcs
+  rcases hcs with rfl | rfl <;>
+    (simp only [List.mem_cons, List.mem_nil_iff, or_false] at hp
+     rcases hp with rfl | rfl <;> exact getCall_fine _ _ _)
+
+example :
+    (fun s : State Nat Nat => (s.allDone, s.threads.map (·.out)))
+      (runFirst demo ⟨true, true, false⟩ 200 (State.init [] [] [[getCall 1 3, getCall 0 1], [getCall 0 2, getCall 1 3]]))
+      = (true, [[.ok 201, .err 7], [.ok 0, .ok 201]]) := by decide +kernel
+
+example : outputs demo Cache.Cfg.none 4 [getCall 1 3, getCall 0 1] = [.ok 201, .err 7] ∧
+    outputs demo Cache.Cfg.none 4 [getCall 0 2, getCall 1 3] = [.ok 0, .ok 201] := by decide
+
+/-- an interleaved schedule (thread 1 claims object 2 while thread 0 is inside object 3, thread 0 then waits for it) -/
+example :
+    ((runSched demo ⟨true, true, false⟩ (State.init [] [] [[getCall 1 3], [getCall 1 2]])
+        [0, 0, 0, 1, 1, 1, 0, 0]).map fun s => s.threads.map fun t => match t.ctl with
+          | .waiting _ r _ => r + 100
+          | .enter _ r _ => r
+          | .pushed _ r _ => r + 10
+          | _ => 0) = some [102, 1] := by decide +kernel
+
 /-! ## Counter-example traces -/
 
 /-- leaf objects 6 and 7 (no nested loads), and two objects 8, 9 that load each other -/
